@@ -476,6 +476,16 @@ def eval_corr_static(ins, reals, drv, postol=Fr(1, 10 ** 9)):
                             '(mask: 1 heap_ok, 2 act_inv, 4 prefix sat, 8 monotone, 16 root is the minimum, 32 violated in-constraints in heap; '
                             'allsat = every slack >= 0 exactly after the pass; same = checked runner computes what merge_pass computes)',
                             'dag': jv['dag'], 'mask': jv['mask'], 'allsat': jv['allsat'], 'same': jv['same'], 'states_checked': jv['states']}
+    for k, rv in sorted((d.get('r') or {}).items()):
+        # Vpsc/StaticRefB.v on every split of refine(): on a DAG the model's refine must return, end with every slack >= 0
+        # exactly, and every visited state must satisfy the invariants the refine proof plan rests on (bits 4, 8, 256 are
+        # the naive candidates that are known to be false on reachable states and are only recorded)
+        if rv['dag'] and (not rv['sat_ok'] or not rv['ref_ok'] or not rv['allsat'] or not rv['same'] or (rv['mask'] & ~(4 | 8 | 256))):
+            return 'diff', {'op_index': k, 'what': 'the STATIC MODEL of refine() on a DAG input does not return with every slack >= 0, or a state it '
+                            'visits inside Blocks::split violates an invariant of Vpsc/StaticRefB.v (mask: 1 all sat at split entry, 2 only the '
+                            'left half moved (left), 32 out-heap root is the most violated out-constraint, 64 violated out-constraints in heap, '
+                            '128 all sat after mergeRight, 512 split constraint active inside its block, 1024 pair invariant J in mergeLeft, '
+                            '2048 invariant I2 in mergeRight)', 'refine': rv}
     for r in reals:
         k = r['op']
         m = ts.get(k)
